@@ -131,12 +131,16 @@ func check(c Case) error {
 			if frev.W[cd] != got {
 				return vk.Errf("%s is not symmetric: %s has weight %d, with the tables swapped %d", what, cd, got, frev.W[cd])
 			}
-			// a share within 1 of the cut-off weight may fall on either side (rounding on the 10000 scale);
-			// with a cut-off of exactly 0 nothing can be below it, so nothing may be zeroed
-			nearCut := cut != 0 && (abs(s1-cw) <= 1 || abs(s2-cw) <= 1)
-			below := s1 < cw || s2 < cw
-			okZero := got == 0 && (below || nearCut || avg <= 1)
-			okAvg := abs(got-avg) <= 1 && (!below || nearCut)
+			// a share within 1 of the cut-off weight may fall on either side (rounding on the 10000 scale) - unless it
+			// is the cut-off exactly, as a fraction (all of an amino acid on one codon and a cut-off of 1; a half and
+			// 0.5): a share that equals the cut-off is not below it, whatever the rounding. With a cut-off of exactly
+			// 0 nothing can be below it, so nothing may be zeroed.
+			eq1, eq2 := equalsCut(fa.W[cd], fa.ClassTotal(l), cut), equalsCut(fb.W[cd], fb.ClassTotal(l), cut)
+			near1, near2 := cut != 0 && abs(s1-cw) <= 1 && !eq1, cut != 0 && abs(s2-cw) <= 1 && !eq2
+			mayBeBelow := (s1 < cw && !eq1) || (s2 < cw && !eq2) || near1 || near2
+			mustBeBelow := (s1 < cw && !near1 && !eq1) || (s2 < cw && !near2 && !eq2)
+			okZero := got == 0 && (mayBeBelow || avg <= 1)
+			okAvg := abs(got-avg) <= 1 && !mustBeBelow
 			if !okZero && !okAvg {
 				return vk.Errf("%s: %s (%s) has weight %d; usage shares are %d and %d of 10000, cut-off weight %d, mean %d", what, cd, l, got, s1, s2, cw, avg)
 			}
@@ -176,6 +180,14 @@ func check(c Case) error {
 		}
 	}
 	return nil
+}
+
+// equalsCut: the usage share w/total is the cut-off exactly (as fractions; cut is taken at its float64 value).
+func equalsCut(w, total int, cut float64) bool {
+	if total <= 0 {
+		return false
+	}
+	return new(big.Rat).SetFrac64(int64(w), int64(total)).Cmp(new(big.Rat).SetFloat64(cut)) == 0
 }
 
 func abs(x int) int {
@@ -249,6 +261,14 @@ func gen(t *rapid.T) Case {
 	c := Case{}
 	c.TA = ctab.DrawSpec(t, "a", true, vk.Pick(3000, 30000))
 	c.TB = ctab.DrawSpecFor(t, "b", true, vk.Pick(3000, 30000), c.TA.ID) // same genetic code
+	if c.TA.Reweight && rapid.IntRange(0, 5).Draw(t, "b_from_a") == 0 {
+		// the second organism uses the same codons as the first, with other frequencies (the first's coding sequence
+		// followed by a part of itself): codons the first never uses the second never uses either, so an amino acid
+		// written with one codon only in one table is written with that codon only in both
+		a := c.TA.Seq.String()
+		cut := 3 * rapid.IntRange(0, len(a)/3).Draw(t, "b_repeats_a_up_to")
+		c.TB = ctab.Spec{ID: c.TA.ID, Reweight: true, Seq: vk.SeqSpec{Lit: a + a[:cut]}, Order: c.TB.Order}
+	}
 	// cut-offs: fixed landmarks, random ones, and values at / next to realised shares
 	land := []float64{-1, -1e-9, 0, 1e-9, 0.05, 0.1, 0.25, 0.5, 1 - 1e-9, 1, 1 + 1e-9, 2}
 	n := rapid.IntRange(3, 6).Draw(t, "n_cuts")
